@@ -237,3 +237,69 @@ Qed.
 (** non-vacuity of the cut on both sides: T = 1/20 < 6 * (1/100) is substituted, T = 1 is not *)
 Example C03_cut_nonvacuous : gen_cut_cond (1 / 20) (1 / 100) /\ ~ gen_cut_cond 1 (1 / 100).
 Proof. unfold gen_cut_cond, gen_cut_threshold. split; lra. Qed.
+
+(** ** Source-text tie for the object layer (translator/py2coq_objlayer.py -> gen/Gen_c03_obj.v, proofs in P_gen_c03_obj)
+
+    Every run re-translates eqsig/single.py: AccSignal.gen_response_spectrum, generate_response_spectrum and the lazy
+    getters s_a / s_v / s_d by symbolic execution over the record [obj] of the fields they touch (values, dt,
+    _response_times, _cached_response_spectra, _cached_xi, _s_d, _s_v, _s_a); properties and methods of the class are
+    inlined along the MRO as Python resolves them (the response_times setter, the values / dt getters).  The two functions
+    of other modules stay parameters: IA = interp_array_to_approx_dt(values, dt, target_dt, even) (property C14),
+    PRS = sdof.pseudo_response_spectra(motion, dt, periods, xi) (properties C01-C03, theorems above); A is the type of one
+    spectrum.  The theorems say, for ALL inputs: the periods used are the argument if given (stored first) else the stored
+    ones; the target step IS [target_dt] of the model (first period unless it is 0, then the second; / 20; dt /
+    min_dt_ratio; the builtin max); the record is refined exactly when target_dt < dt -- the branch on which [obj_factor] is
+    the ceiling of dt / target_dt, and 1 on the other -- by IA(values, dt, target_dt, even=False); xi = -1 means the cached
+    damping; PRS gets (record, step, periods, xi) in this order and its results are stored as (_s_d, _s_v, _s_a) in this
+    order; the flag is set; values, dt and _cached_xi are left alone.  A changed operand / index / literal / comparison /
+    keyword / default / storage order changes the generated text and breaks one of these theorems; a renamed temporary
+    gives the same text.
+    NOT covered here (trusted reading / correspondence): IA and PRS themselves (their own properties), `if self.verbose:
+    print(..)` dropped as having no effect on the record, the `except MemoryError: raise MemoryError(..)` re-wording,
+    Python's evaluation of `response_times[0] != 0` on a non-float entry, binary64 rounding of the two quotients. *)
+From EQ Require Import lib.PyRes gen.Gen_c03_obj proofs.P_gen_c03_obj.
+
+Theorem C03_object_step_is_source : forall (A : Type) (IA : list R -> R -> R -> bool -> list R * R)
+    (PRS : list R -> R -> list R -> R -> A * A * A) (rt : option (list R)) (xi ratio : R) (st : obj A),
+  let periods := match rt with Some r => r | None => o_response_times A st end in
+  let td := target_dt (o_dt A st) ratio periods in
+  let rc := if Rltb td (o_dt A st) then IA (o_values A st) (o_dt A st) td false else (o_values A st, o_dt A st) in
+  let r := PRS (fst rc) (snd rc) periods (if Reqb xi (-1) then o_cached_xi A st else xi) in
+  periods <> [] -> (hd 0 periods = 0 -> (2 <= length periods)%nat) ->
+  gen_gen_response_spectrum A IA PRS rt xi ratio st
+  = PyOk (mk_obj A (o_values A st) (o_dt A st) periods true (o_cached_xi A st) (fst (fst r)) (snd (fst r)) (snd r)).
+Proof. intros A IA PRS. exact (P_gen_c03_obj.gen_grs_ok_R IA PRS). Qed.
+(** no period, or the single period 0: Python raises IndexError ([response_times[0]] resp. [response_times[1]]) *)
+Theorem C03_object_step_raises_is_source : forall (A : Type) (IA : list R -> R -> R -> bool -> list R * R)
+    (PRS : list R -> R -> list R -> R -> A * A * A) (rt : option (list R)) (xi ratio : R) (st : obj A),
+  let periods := match rt with Some r => r | None => o_response_times A st end in
+  periods = [] \/ periods = [0] -> gen_gen_response_spectrum A IA PRS rt xi ratio st = PyRaise IndexError.
+Proof. intros A IA PRS. exact (P_gen_c03_obj.gen_grs_raises_R IA PRS). Qed.
+(** the branch of the source and the factor of the model (C03_object_step is about this [obj_factor]) *)
+Theorem C03_object_factor_is_source_branch : forall dt ratio (periods : list R),
+  obj_factor dt ratio periods = if Rltb (target_dt dt ratio periods) dt then nceil (dt / target_dt dt ratio periods) else 1%Z.
+Proof. exact (@P_gen_c03_obj.obj_factor_branch R _). Qed.
+(** generate_response_spectrum hands its arguments on unchanged *)
+Theorem C03_generate_is_gen_is_source : forall (A : Type) (IA : list R -> R -> R -> bool -> list R * R)
+    (PRS : list R -> R -> list R -> R -> A * A * A) (rt : option (list R)) (xi ratio : R) (st : obj A),
+  gen_generate_response_spectrum A IA PRS rt xi ratio st = gen_gen_response_spectrum A IA PRS rt xi ratio st.
+Proof. intros A IA PRS. exact (P_gen_c03_obj.gen_generate_rs_eq IA PRS). Qed.
+(** the lazy getters: the stored spectrum when the flag is set; otherwise the step above with response_times=None, xi=-1,
+    min_dt_ratio=4 (the defaults of generate_response_spectrum), then the stored spectrum -- s_a reads _s_a, s_v reads _s_v,
+    s_d reads _s_d *)
+Theorem C03_lazy_spectra_are_source : forall (A : Type) (IA : list R -> R -> R -> bool -> list R * R)
+    (PRS : list R -> R -> list R -> R -> A * A * A) (st : obj A),
+  let lazy := fun (proj : obj A -> A) =>
+    if o_cached_rs A st then PyOk (st, proj st)
+    else match gen_gen_response_spectrum A IA PRS None (-1) 4 st with
+         | PyOk st' => PyOk (st', proj st')
+         | PyRaise e => PyRaise e
+         end in
+  gen_s_a A IA PRS st = lazy (o_s_a A) /\ gen_s_v A IA PRS st = lazy (o_s_v A) /\ gen_s_d A IA PRS st = lazy (o_s_d A).
+Proof. intros A IA PRS. exact (P_gen_c03_obj.gen_lazy_spectra_R IA PRS). Qed.
+Theorem C03_object_defaults_are_source :
+  gen_gen_response_spectrum_default_response_times_is_none = true /\ gen_gen_response_spectrum_default_xi = (-1)%Z /\
+  gen_gen_response_spectrum_default_min_dt_ratio = 4%Z /\
+  gen_generate_response_spectrum_default_response_times_is_none = true /\ gen_generate_response_spectrum_default_xi = (-1)%Z /\
+  gen_generate_response_spectrum_default_min_dt_ratio = 4%Z.
+Proof. exact P_gen_c03_obj.gen_c03_obj_defaults. Qed.
